@@ -30,6 +30,15 @@ CORPUS = [
          new="\th32 ^= h32 >> 12\n\th32 *= prime3\n\th32 ^= h32 >> 16\n\n\treturn h32\n}\n\n// Portable version of ChecksumZero."),
     dict(name="C13-reset-keeps-buffer", kind="break", props=["C13"], file="internal/xxh32/xxh32zero.go",
          old="\txxh.totalLen = 0\n\txxh.bufused = 0\n}", new="\txxh.totalLen = 0\n}"),
+    # ---- bounded stand-in C08 ----
+    dict(name="C08-reset-after-close-waits-again", kind="break", props=["C08"], file="internal/lz4stream/block.go",
+         old="\tb.Blocks = nil\n\terr := b.err", new="\terr := b.err"),
+    dict(name="C08-flush-keeps-using-the-buffer", kind="break", props=["C08"], file="writer.go",
+         old="\t\tif !w.isNotConcurrent() {\n\t\t\tsize := w.frame.Descriptor.Flags.BlockSizeIndex()\n\t\t\tw.data = size.Get()\n\t\t}\n\t\tw.idx = 0\n\t}\n\treturn nil",
+         new="\t\tw.idx = 0\n\t}\n\treturn nil"),
+    dict(name="C08-worker-releases-buffer-early", kind="break", props=["C08"], file="writer.go",
+         old="\t\tc <- b.Compress(w.frame, data, w.level)\n\t\t<-c\n\t\tw.handler(len(b.Data))\n\t\tb.Close(w.frame)\n\t\tif safe {",
+         new="\t\tc <- b.Compress(w.frame, data, w.level)\n\t\tw.handler(len(b.Data))\n\t\tb.Close(w.frame)\n\t\t<-c\n\t\tif safe {"),
     # ---- bounded stand-ins C01 / C04 / C12 ----
     dict(name="C01-fast-match-not-verified", kind="break", props=["C01"], file="internal/lz4block/block.go",
          old="if offset <= 0 || offset >= winSize || uint32(match>>8) != binary.LittleEndian.Uint32(src[ref2:]) {",
